@@ -195,12 +195,26 @@ def stamp_of(r):
     return r["t"] + 3600 * r["id"]
 
 
+def lonlat_of(sc, x, y):
+    """bilinear longitude / latitude of the grid position (x, y) in the scenario's coordinate tables"""
+    from .forcedrv import geo_tables
+    lon, lat = geo_tables(sc)
+    i, j = int(x), int(y)
+    p, q = x - i, y - j
+
+    def b(T):
+        return float((1 - p) * (1 - q) * T[j, i] + p * (1 - q) * T[j, i + 1] + (1 - p) * q * T[j + 1, i] + p * q * T[j + 1, i + 1])
+    return b(lon), b(lat)
+
+
 def write_release(sc, path):
     st = bool(sc.get("stampvar"))
+    ll = bool(sc.get("llrelease"))          # positions given by longitude / latitude (needs sc["geo"])
     with open(path, "w") as f:
-        f.write("mult release_time X Y Z farm src" + (" stamp" if st else "") + "\n")
+        f.write("mult release_time " + ("lon lat" if ll else "X Y") + " Z farm src" + (" stamp" if st else "") + "\n")
         for r in sc["rows"]:
-            f.write(f"{r['mult']} {iso(r['t'])} {r['xf']!r} {r['yf']!r} {r['zf']!r} {r['id']} {r['id']}" + (f" {iso(stamp_of(r))}" if st else "") + "\n")
+            px, py = lonlat_of(sc, r["xf"], r["yf"]) if ll else (r["xf"], r["yf"])
+            f.write(f"{r['mult']} {iso(r['t'])} {px!r} {py!r} {r['zf']!r} {r['id']} {r['id']}" + (f" {iso(stamp_of(r))}" if st else "") + "\n")
 
 
 class _Plug:
